@@ -18,6 +18,9 @@ import pandas as pd
 
 OPS = ["==", "=", "!=", "<", "<=", ">", ">=", "in", "not in"]
 STR_POOL = ["a", "b", "c", "d", "m", "x", "zz", "B", ""]
+BIG_INTS = [2**53 - 1, 2**53, 2**53 + 1, 2**63 - 1, -2**63, -2**53 - 1, 2**62 + 1, 1234567890123456721, 2**64 - 1, 2**63, 2**63 + 1]
+ZONES = ["UTC", "America/New_York", "Asia/Kolkata", "Europe/Berlin", "Pacific/Auckland", "America/Los_Angeles"]
+LONG_LATTICE = [63, 64, 65, 255, 256, 257, 511, 512, 513, 4095, 4096, 4097, 65535, 65536, 65537]
 PART_STR = ["u", "v", "w"]
 
 
@@ -39,11 +42,67 @@ def build_frame(spec):
                                                   for v in vals], dtype="datetime64[ns]"))
         elif k == "bool":
             cols[name] = np.array(vals, dtype=bool)
+        elif k == "uint":
+            cols[name] = np.array(vals, dtype="uint64")
+        elif k == "lstr":
+            cols[name] = pd.Series([None if v is None else expand_long(v) for v in vals], dtype=object)
+        elif k == "tstz":
+            # hours after 2020-01-01T00:00Z, shown in the column's zone
+            cols[name] = pd.Series(pd.to_datetime(np.array([np.datetime64("NaT") if v is None else np.datetime64("2020-01-01") + np.timedelta64(v, "h")
+                                                            for v in vals], dtype="datetime64[ns]"))).dt.tz_localize("UTC").dt.tz_convert(c["tz"])
         elif k == "cat":
             cols[name] = pd.Categorical(vals, categories=c["categories"])
         else:
             raise ValueError(k)
     return pd.DataFrame(cols)
+
+
+def expand_long(item):
+    """[unit, length, tail]: `unit` repeated and cut so that the text has `length` characters and ends in `tail`"""
+    unit, length, tail = item
+    return (unit * (length // max(1, len(unit)) + 1))[:max(0, length - len(tail))] + tail
+
+
+def edit_footer(path, edits):
+    """Rewrite the footer the reader opens (the file itself / _metadata of a directory) the way another writer could have
+    written it: drop one bound of a chunk's statistics, or move min/max into the min_value/max_value fields.
+    edits: [[row group index, column name, "drop_min"|"drop_max"|"value_fields"|"drop_null_count"], ...]"""
+    import struct
+    from fastparquet.cencoding import from_buffer
+    from fastparquet.writer import write_thrift
+    fn = os.path.join(path, "_metadata") if os.path.isdir(path) else path
+    with open(fn, "rb+") as f:
+        loc0 = f.seek(-8, 2)
+        size = int.from_bytes(f.read(4), "little")
+        loc = loc0 - size
+        f.seek(loc)
+        fmd = from_buffer(f.read(), "FileMetaData")
+        for gi, name, action in edits:
+            if gi >= len(fmd.row_groups):
+                continue
+            for col in fmd.row_groups[gi].columns:
+                cn = ".".join(x.decode() if isinstance(x, bytes) else x for x in col.meta_data.path_in_schema)
+                st = col.meta_data.statistics
+                if cn != name or st is None:
+                    continue
+                if action == "drop_min":
+                    st.min = None
+                    st.min_value = None
+                elif action == "drop_max":
+                    st.max = None
+                    st.max_value = None
+                elif action == "drop_null_count":
+                    st.null_count = None
+                elif action == "value_fields":
+                    if st.max is not None:
+                        st.max_value, st.max = st.max, None
+                    if st.min is not None:
+                        st.min_value, st.min = st.min, None
+        f.seek(loc)
+        n = write_thrift(f, fmd)
+        f.write(struct.pack("<I", n))
+        f.write(b"PAR1")
+        f.truncate()
 
 
 def write_dataset(spec, root):
@@ -72,6 +131,8 @@ def write_dataset(spec, root):
                               compression=spec.get("compression"), **kw)
     finally:
         writer.MAX_PAGE_SIZE, writer.DATAPAGE_VERSION = old
+    if spec.get("footer_edit"):
+        edit_footer(path, spec["footer_edit"])
     return path
 
 
@@ -150,10 +211,121 @@ def gen_dataset(rng, kinds=None, allow_parts=True, cat=False, sizes=None):
     return spec
 
 
+def gen_dataset_w3(rng, flavour):
+    """wave-3 generator dimensions (each stands for a class of seeded changes the random datasets above do not reach):
+    long     - text values on the length lattice sharing a long prefix, statistics on (a writer-side cut of min/max);
+    bigpart  - hive partition keys at integer representation boundaries (2**53 +- 1, int64/uint64 extremes);
+    tz       - tz-aware timestamp column, consecutive row groups a few hours apart, constants in other zones;
+    onesided - statistics with only one bound / in the *_value fields / without null_count (footer as another writer
+               leaves it, spec["footer_edit"]), and text chunks whose minimum is '' (which the reader takes as absent)."""
+    nrg = rng.choice([2, 3, 3, 4])
+    sizes = [rng.choice([1, 2, 3, 4]) for _ in range(nrg)]
+    spec = {"scheme": "simple", "partition_on": [], "stats": True, "page_size": None, "v2": rng.random() < 0.3, "has_nulls": None,
+            "compression": None, "flavour": flavour}
+    if flavour == "long":
+        huge = rng.random() < 0.25
+        if huge:
+            sizes = sizes[:2]         # the footer repeats min and max per row group and is serialised into a fixed 500 kB buffer
+        lens = rng.sample([x for x in LONG_LATTICE if x <= (65537 if huge else 4097)][-9 if huge else 0:], 2)
+        unit = rng.choice(["ab", "https://example.org/a/", "x"] if huge else ["ab", "https://example.org/a/", "x", "a\u00e9", "\u4e2db"])
+        pool = [[unit, L, t] for L in lens for t in ("", "0", "z", "zz")] + [[unit, 2, ""], ["~", 1, ""]][:rng.choice([0, 1, 2])]
+        vals = []
+        for s_ in sizes:
+            mode = rng.choice(["range", "range", "const", "somenull", "top"])
+            sub = rng.sample(pool, min(len(pool), 3))
+            for _ in range(s_):
+                v = sub[0] if mode == "const" else (max(pool, key=lambda it: expand_long(it).encode("utf-8")) if mode == "top" and rng.random() < 0.5
+                                                     else rng.choice(sub))
+                vals.append(None if mode == "somenull" and rng.random() < 0.3 else v)
+        cols = {"ls": {"kind": "lstr", "values": vals}}
+        if rng.random() < 0.5:
+            cols["i"] = {"kind": "int", "values": [rng.randrange(0, 6) for _ in range(sum(sizes))]}
+    elif flavour == "bigpart":
+        kind = rng.choice(["int", "int", "uint"])
+        lo, hi = (0, 2**64 - 1) if kind == "uint" else (-2**63, 2**63 - 1)
+        cand = sorted({min(hi, max(lo, b + d)) for b in BIG_INTS if lo <= b <= hi for d in (-1, 0, 1)} | {0, 7})
+        keys = rng.sample(cand, rng.choice([2, 3, 3]))
+        qv = []
+        for s_ in sizes:
+            x = rng.choice(keys)
+            qv += [x if rng.random() < 0.9 else rng.choice(keys) for _ in range(s_)]
+        cols = {"q": {"kind": kind, "values": qv, "big": True},
+                "i": {"kind": "int", "values": [rng.randrange(0, 6) for _ in range(sum(sizes))]}}
+        spec.update(scheme="hive", partition_on=["q"], stats=rng.choice([True, True, False]))
+    elif flavour == "tz":
+        span = rng.choice([2, 3, 6, 12])
+        start = rng.choice([0, 5, 18, 24 * 59 + 20])
+        vals = []
+        for gi, s_ in enumerate(sizes):
+            mode = rng.choice(["range", "range", "const", "somenull"])
+            a = start + gi * span
+            for _ in range(s_):
+                v = a if mode == "const" else a + rng.randrange(0, span)
+                vals.append(None if mode == "somenull" and rng.random() < 0.3 else v)
+        cols = {"tz": {"kind": "tstz", "values": vals, "tz": rng.choice(ZONES)},
+                "i": {"kind": "int", "values": [rng.randrange(0, 6) for _ in range(sum(sizes))]}}
+        if rng.random() < 0.3:
+            pv = []
+            for s_ in sizes:
+                pv += [rng.choice(PART_STR)] * s_
+            cols["p"] = {"kind": "str", "values": pv}
+            spec.update(scheme="hive", partition_on=["p"])
+    elif flavour == "onesided":
+        base = gen_dataset(rng, kinds=rng.sample(["int", "str", "float", "nint", "ts"], rng.choice([2, 3])), allow_parts=rng.random() < 0.3)
+        base["stats"] = True
+        base["flavour"] = flavour
+        offs = base["offsets"] + [base["n"]]
+        if "s" in base["cols"] and base["has_nulls"] is not False:
+            sv = base["cols"]["s"]["values"]
+            for gi in range(len(offs) - 1):
+                if rng.random() < 0.5 and sv[offs[gi]] is not None:
+                    sv[offs[gi]] = ""                           # the chunk's minimum is the empty text
+        edits = []
+        for gi in range(len(offs) - 1):
+            for name in base["cols"]:
+                if name != "rid" and name not in base["partition_on"] and rng.random() < 0.6:
+                    edits.append([gi, name, rng.choice(["drop_min", "drop_min", "drop_max", "drop_max", "value_fields", "drop_null_count"])])
+        base["footer_edit"] = edits
+        return base
+    else:
+        raise ValueError(flavour)
+    n = sum(sizes)
+    offsets, a = [], 0
+    for s_ in sizes:
+        offsets.append(a)
+        a += s_
+    spec.update(n=n, offsets=offsets, cols={"rid": {"kind": "int", "values": list(range(n))}, **cols})
+    return spec
+
+
+def text_kind(k):
+    return k in ("str", "cat", "lstr")
+
+
 # ------------------------------------------------------------------ programs
 def py_const(c):
     if isinstance(c, dict) and "ts" in c:
         return pd.Timestamp("2020-01-01") + pd.Timedelta(days=c["ts"])
+    if isinstance(c, dict) and "tstz" in c:
+        return (pd.Timestamp("2020-01-01", tz="UTC") + pd.Timedelta(hours=c["tstz"])).tz_convert(c["zone"])
+    if isinstance(c, dict) and "long" in c:
+        return expand_long(c["long"])
+    if isinstance(c, dict) and "arr" in c:
+        # a membership constant in container form: numpy array / pandas Index / list / tuple, optionally with the
+        # interesting values hidden between three leading and three trailing fillers and `pad` irrelevant ones
+        # (containers whose printed form abbreviates the middle)
+        a = c["arr"]
+        seq = list(a["vals"])
+        if a.get("pad"):
+            seq = [-1003, -1002, -1001] + seq + list(range(100000, 100000 + a["pad"])) + [900001, 900002, 900003]
+        if a.get("float"):
+            seq = [float(x) for x in seq]
+        form = a.get("form", "np")
+        if form == "np":
+            return np.array(seq)
+        if form == "index":
+            return pd.Index(seq)
+        return tuple(seq) if form == "tuple" else seq
     if isinstance(c, list):
         return [py_const(x) for x in c]
     return c
@@ -170,6 +342,11 @@ def _const_pool(rng, spec, name, chunks):
     k = c["kind"]
     ch = rng.choice(chunks) if chunks else []
     present = [v for v in ch if v is not None]
+    if k == "uint" or c.get("big"):
+        # integers at representation boundaries: the value itself and its neighbours, never through a float
+        lo, hi = (0, 2**64 - 1) if k == "uint" else (-2**63, 2**63 - 1)
+        base = rng.choice(present) if present and rng.random() < 0.8 else rng.choice(BIG_INTS)
+        return min(hi, max(lo, base + rng.choice([0, 0, 0, 1, -1, 2, -2])))
     if k in ("int", "nint", "float", "ts"):
         if present:
             lo, hi = min(present), max(present)
@@ -191,6 +368,29 @@ def _const_pool(rng, spec, name, chunks):
         return float(v)
     if k == "bool":
         return rng.choice([True, False, True, False, 1, 0])
+    if k == "tstz":
+        if present:
+            lo, hi = min(present), max(present)
+            v = rng.choice([lo, hi, lo - 1, hi + 1, rng.choice(present), lo, hi])
+        else:
+            v = rng.choice([0, 6, 12])
+        return {"tstz": int(v), "zone": rng.choice(ZONES)}
+    if k == "lstr":
+        if not present:
+            return {"long": ["ab", 3, ""]}
+        key = lambda it: expand_long(it).encode("utf-8")
+        it = rng.choice([min(present, key=key), max(present, key=key), max(present, key=key), rng.choice(present)])
+        unit, L, tail = it
+        r = rng.random()
+        if r < 0.5:
+            return {"long": [unit, L, tail]}                       # a stored value itself (often the chunk's max / min)
+        if r < 0.65:
+            return {"long": [unit, max(0, L - 1), ""]}             # a strict prefix: sorts below
+        if r < 0.8:
+            return {"long": [unit, rng.choice([63, 64, 65, 255, 256, 512, 4096]), ""]}   # the value cut at a lattice point
+        if r < 0.9:
+            return {"long": [unit, L + 1, tail]}
+        return {"long": [unit, L, rng.choice(["0", "z", "~", ""])]}
     if k in ("str", "cat"):
         pool = present + STR_POOL if k == "str" else present + ["a", "b", "c", "d", "e"]
         if present and rng.random() < 0.6:
@@ -199,7 +399,7 @@ def _const_pool(rng, spec, name, chunks):
     raise ValueError(k)
 
 
-def gen_program(rng, spec, chunks_of, cols=None, wrong_type=0.03):
+def gen_program(rng, spec, chunks_of, cols=None, wrong_type=0.03, ops=None, in_sizes=None, tilde=0.0):
     """chunks_of: name -> list of per-row-group value lists (as read back), used to aim constants"""
     names = cols or [c for c in spec["cols"] if c != "rid" or rng.random() < 0.1]
     shape = rng.choice(["flat1", "flat1", "flat", "flat", "dnf", "dnf", "dnf1"])
@@ -210,12 +410,15 @@ def gen_program(rng, spec, chunks_of, cols=None, wrong_type=0.03):
         grp = []
         for _ in range(nc):
             name = rng.choice(names)
-            op = rng.choice(OPS)
+            op = rng.choice(ops or OPS)
             kind = spec["cols"][name]["kind"]
             if kind in ("bool", "cat") and op in ("<", "<=", ">", ">=") and rng.random() < (0.7 if kind == "bool" else 0.95):
                 op = rng.choice(["==", "!=", "in", "not in"])      # pandas refuses to order an unordered categorical
+            if kind == "bool" and rng.random() < tilde:
+                grp.append([name, "~", None])          # rows where the boolean column is False (row-level filtering only)
+                continue
             if op in ("in", "not in"):
-                k = rng.choice([0, 1, 1, 2, 3])
+                k = rng.choice(in_sizes or [0, 1, 1, 2, 3])
                 const = [_const_pool(rng, spec, name, chunks_of.get(name)) for _ in range(k)]
             else:
                 const = _const_pool(rng, spec, name, chunks_of.get(name))
@@ -266,6 +469,8 @@ def sat_cond(cell, op, const):
             return any(bool(cell == c) for c in const)
         if op == "not in":
             return not any(bool(cell == c) for c in const)
+        if op == "~":
+            return not bool(cell)
     except TypeError:
         return None
     raise ValueError(op)
@@ -313,8 +518,10 @@ def to_pv(x):
         return "(PInt (%d))" % int(x * SCALE)
     if isinstance(x, (pd.Timestamp, np.datetime64)):
         t = pd.Timestamp(x)
-        if t is pd.NaT or t.tz is not None:
+        if t is pd.NaT:
             raise NotRepresentable(repr(x))
+        # a time-zone aware value is the instant it denotes (ns since the epoch, UTC): what the decoded statistics of a
+        # tz-aware column are expressed in
         return "(PInt (%d))" % (SCALE * t.value)
     if isinstance(x, bytes):
         try:
@@ -322,6 +529,8 @@ def to_pv(x):
         except UnicodeDecodeError:
             raise NotRepresentable(repr(x))
     if isinstance(x, str):
+        if len(x) > 300:
+            raise NotRepresentable("text of %d characters" % len(x))
         if '"' in x or any(ord(c) < 32 or ord(c) > 126 for c in x):
             raise NotRepresentable(repr(x))
         return '(PStr "%s")' % x
